@@ -434,7 +434,12 @@ pub fn worker_handle(req: &Value) -> Value {
                             && m.thermal_bridges.iter().all(|t| t.l >= 0.0 && t.psi.is_finite())
                             && m.schedules.day.iter().all(|d| d.values.len() == 24 && d.values.iter().all(|v| v.is_finite()))
                             && m.schedules.week.iter().all(|w| w.values.iter().map(|v| v.1).sum::<u32>() == 7)
-                            && m.schedules.year.iter().all(|y| !y.values.is_empty());
+                            && m.schedules.year.iter().all(|y| !y.values.is_empty() && y.values.iter().all(|v| v.1 >= 1) && y.values.iter().map(|v| v.1).sum::<u32>() == 365)
+                            && m.schedules.week.iter().all(|w| w.values.iter().all(|v| v.1 >= 1))
+                            // the other non-negative physical data of the model
+                            && m.meta.d_perim_insulation >= 0.0 && m.meta.rn_perim_insulation >= 0.0
+                            && m.meta.global_ventilation_l_s.map_or(true, |v| v >= 0.0) && m.meta.n50_test_ach.map_or(true, |v| v >= 0.0)
+                            && m.spaces.iter().all(|s| s.n_v.map_or(true, |v| v >= 0.0));
                         e["outcome"] = json!("ok");
                         e["nonfinite"] = json!(nulls);
                         e["roundtrips"] = json!(roundtrips);
@@ -723,4 +728,24 @@ pub fn main_probe(args: &Args) {
         }
     }
     if args.flag("--dump") { println!("{}", m.as_json().unwrap_or_default()); }
+}
+
+/// diagnostic: where does the indicators' JSON of a model carry null
+pub fn main_nulls(args: &Args) {
+    install_panic_hook();
+    let text = std::fs::read_to_string(args.get("--model").unwrap_or_default()).unwrap_or_default();
+    let m = Model::from_json(&text).expect("model");
+    let ind = m.energy_indicators();
+    let js = ind.as_json().unwrap_or_default();
+    let v: Value = serde_json::from_str(&js).unwrap_or(Value::Null);
+    fn walk(v: &Value, path: String) {
+        match v {
+            Value::Null => println!("null at {}", path),
+            Value::Object(o) => for (k, x) in o { walk(x, format!("{}.{}", path, k)) },
+            Value::Array(a) => for (i, x) in a.iter().enumerate() { walk(x, format!("{}[{}]", path, i)) },
+            _ => {}
+        }
+    }
+    walk(&v, String::new());
+    println!("reload: {:?}", serde_json::from_str::<EnergyIndicators>(&js).map(|_| ()).map_err(|e| e.to_string()));
 }
